@@ -175,6 +175,11 @@ func VH_C04B() {
 				return v.kind == 'a' && len(v.arr) == 2 && v.arr[0].str == "a" && (v.arr[1].str == s || !utf8.ValidString(s))
 			}, k}
 		case 15:
+			if vBool() {
+				return NewAttr(key, []uint64{18446744073709551615, 9223372036854775808, 7}), want{key, func(v vJ) bool {
+					return v.kind == 'a' && len(v.arr) == 3 && v.arr[0].str == "18446744073709551615" && v.arr[1].str == "9223372036854775808" && v.arr[2].str == "7"
+				}, ""}
+			}
 			return NewAttr(key, []int{1, -2}), want{key, func(v vJ) bool {
 				return v.kind == 'a' && len(v.arr) == 2 && v.arr[0].str == "1" && v.arr[1].str == "-2"
 			}, ""}
